@@ -89,6 +89,15 @@ func sharedRound(c *fw.Ctx, G, iters, procs int) {
 	desc := fmt.Sprintf("G=%d procs=%d fast=%v def=%s", G, procs, fast, def.String())
 	c.Journal("C15 " + desc)
 	obs := make([][]concObs, G)
+	// values handed out in safe mode stay the goroutine's own after Close ("new slices for any returned field
+	// data results"): each goroutine keeps what it was given and looks at it again after it — and the other
+	// goroutines — have decoded further messages with the recycled results
+	type heldC struct {
+		what string
+		live interface{}
+		want string // the reply rendered when the value was handed out
+	}
+	heldLeft := make([][]heldC, G)
 	var wg sync.WaitGroup
 	for g := 0; g < G; g++ {
 		wg.Add(1)
@@ -99,6 +108,56 @@ func sharedRound(c *fw.Ctx, G, iters, procs int) {
 					obs[g] = append(obs[g], concObs{desc: desc, viol: &fw.Violation{Stream: "shared", Signature: "conc/panic", What: fmt.Sprintf("goroutine %d panicked: %v", g, x), Input: desc}})
 				}
 			}()
+			var held []heldC
+			heldViolated := false
+			keep := func(what string, got string, live interface{}) {
+				if fast || live == nil {
+					return
+				}
+				switch live.(type) {
+				case bool, uint32, int32, uint64, int64, float32, float64:
+					return // plain values cannot change
+				}
+				held = append(held, heldC{what, live, got})
+			}
+			checkHeld := func(when string) {
+				for _, h := range held {
+					if now := renderAccValue(h.live); now != h.want && !heldViolated {
+						heldViolated = true
+						obs[g] = append(obs[g], concObs{desc: desc, viol: &fw.Violation{Stream: "shared", Signature: "conc/held-value-changed",
+							What:  fmt.Sprintf("goroutine %d: a value handed out in safe mode changed after the result was closed and further messages were decoded (%s)", g, when),
+							Input: fmt.Sprintf("%s value=%s", desc, h.what), Expected: trunc(h.want, 200), Got: trunc(now, 200)}})
+					}
+				}
+				if len(held) > 48 {
+					held = append([]heldC{}, held[len(held)-48:]...)
+				}
+			}
+			// a result together with the observation that is completed when it is closed
+			type openRes struct {
+				res    *lazyproto.DecodeResult
+				in     []byte
+				o      concObs
+				rq, rp []string
+				again  []reqT
+			}
+			finish := func(p *openRes, overlapped bool) {
+				for _, q := range p.again { // the result was kept open while another message was decoded and read
+					got, live := accessPathV(p.res, q.path, q.name)
+					p.rq = append(p.rq, fmt.Sprintf("acc 0 %s %s", pathString(q.path), q.name))
+					p.rp = append(p.rp, got)
+					if want, ok := refPathAnswer(p.in, def, q.path, q.name); ok && want != got && p.o.viol == nil {
+						p.o.viol = &fw.Violation{Stream: "shared", Signature: "conc/foreign-value-in-result-kept-open/" + q.name,
+							What:  fmt.Sprintf("goroutine %d kept a result open while it decoded and read the next message with the same Decoder; the older result then exposed a value that is not its own input's", g),
+							Input: fmt.Sprintf("%s input=%s path=%s", desc, hexs(p.in), pathString(q.path)), Expected: trunc(want, 200), Got: trunc(got, 200)}
+					}
+					keep(fmt.Sprintf("%s(%s) of input %s", q.name, pathString(q.path), trunc(hexs(p.in), 200)), got, live)
+				}
+				p.res.Close()
+				p.o.req, p.o.rep = strings.Join(p.rq, " ; "), strings.Join(p.rp, " ; ")
+				obs[g] = append(obs[g], p.o)
+			}
+			var prev *openRes
 			for i, in := range inputs[g] {
 				data := append([]byte{}, in...)
 				res, err := dec.Decode(data)
@@ -118,7 +177,7 @@ func sharedRound(c *fw.Ctx, G, iters, procs int) {
 						if k == 1 {
 							runtime.Gosched()
 						}
-						got := accessPath(res, q.path, q.name)
+						got, live := accessPathV(res, q.path, q.name)
 						rq = append(rq, fmt.Sprintf("acc 0 %s %s", pathString(q.path), q.name))
 						rp = append(rp, got)
 						if want, ok := refPathAnswer(in, def, q.path, q.name); ok && want != got && o.viol == nil {
@@ -126,6 +185,7 @@ func sharedRound(c *fw.Ctx, G, iters, procs int) {
 								What:  fmt.Sprintf("goroutine %d observed a value that is not its own input's", g),
 								Input: fmt.Sprintf("%s input=%s path=%s", desc, hexs(in), pathString(q.path)), Expected: trunc(want, 200), Got: trunc(got, 200)}
 						}
+						keep(fmt.Sprintf("%s(%s) of input %s", q.name, pathString(q.path), trunc(hexs(in), 200)), got, live)
 					}
 					// explicit nested results, closed by the client before the root (documented as a no-op)
 					for _, e := range def.entries {
@@ -138,12 +198,13 @@ func sharedRound(c *fw.Ctx, G, iters, procs int) {
 									if se.sub != nil || se.key < 0 {
 										continue
 									}
-									got := accessPath(n, []int{se.key}, "Bytess")
+									got, live := accessPathV(n, []int{se.key}, "Bytess")
 									if want, ok := refPathAnswer(payload, e.sub, []int{se.key}, "Bytess"); ok && want != got && o.viol == nil {
 										o.viol = &fw.Violation{Stream: "shared", Signature: "conc/foreign-value/nested-result",
 											What:  fmt.Sprintf("goroutine %d observed, in a nested result, a value that is not its own input's", g),
 											Input: fmt.Sprintf("%s input=%s nested=%d tag=%d", desc, hexs(in), e.key, se.key), Expected: trunc(want, 200), Got: trunc(got, 200)}
 									}
+									keep(fmt.Sprintf("NestedResult(%d).Bytess(%d) of input %s", e.key, se.key, trunc(hexs(in), 200)), got, live)
 								}
 							}
 							n.Close()
@@ -167,25 +228,62 @@ func sharedRound(c *fw.Ctx, G, iters, procs int) {
 								if se.sub != nil || se.key < 0 {
 									continue
 								}
-								for _, name := range []string{"Bytess", "UInt64s", "Fixed32s"} {
-									got := accessPath(n, []int{se.key}, name)
+								for _, name := range []string{"Bytess", "UInt64s", "Fixed32s", "Strings", "Bytes"} {
+									got, live := accessPathV(n, []int{se.key}, name)
 									if want, ok := refPathAnswer(payloads[j], e.sub, []int{se.key}, name); ok && want != got && o.viol == nil {
 										o.viol = &fw.Violation{Stream: "shared", Signature: "conc/foreign-value/nested-results",
 											What:  fmt.Sprintf("goroutine %d observed, in element %d of NestedResults, a value that is not its own input's", g, j),
 											Input: fmt.Sprintf("%s input=%s nested=%d tag=%d accessor=%s", desc, hexs(in), e.key, se.key, name), Expected: trunc(want, 200), Got: trunc(got, 200)}
 									}
+									keep(fmt.Sprintf("NestedResults(%d)[%d].%s(%d) of input %s", e.key, j, name, se.key, trunc(hexs(in), 200)), got, live)
 								}
 							}
 						}
 					}
-					res.Close()
 				}
-				o.req, o.rep = strings.Join(rq, " ; "), strings.Join(rp, " ; ")
-				obs[g] = append(obs[g], o)
+				// the previous result, if it was kept open across this iteration: read it again, close it
+				if prev != nil {
+					finish(prev, true)
+					prev = nil
+				}
+				if err == nil && res != nil {
+					cur := &openRes{res: res, in: in, o: o, rq: rq, rp: rp}
+					if i%4 == 2 && i+1 < len(inputs[g]) {
+						cur.again = reqs[g][i] // two results of the shared Decoder alive in this goroutine during the next iteration
+						prev = cur
+					} else {
+						finish(cur, false)
+					}
+				} else {
+					o.req, o.rep = strings.Join(rq, " ; "), strings.Join(rp, " ; ")
+					obs[g] = append(obs[g], o)
+				}
+				if i%3 == 1 {
+					runtime.Gosched() // the results are back in the pool: let the others decode with them
+				}
+				checkHeld(fmt.Sprintf("looked at after iteration %d", i))
 			}
+			if prev != nil {
+				finish(prev, true)
+			}
+			checkHeld("looked at when the goroutine had finished")
+			heldLeft[g] = held
 		}(g)
 	}
 	wg.Wait()
+	heldCount := 0
+	for g := range heldLeft {
+		heldCount += len(heldLeft[g])
+		for _, h := range heldLeft[g] {
+			if now := renderAccValue(h.live); now != h.want {
+				obs[g] = append(obs[g], concObs{desc: desc, viol: &fw.Violation{Stream: "shared", Signature: "conc/held-value-changed",
+					What:  fmt.Sprintf("goroutine %d: a value handed out in safe mode changed after the result was closed and further messages were decoded (looked at after all goroutines had finished)", g),
+					Input: fmt.Sprintf("%s value=%s", desc, h.what), Expected: trunc(h.want, 200), Got: trunc(now, 200)}})
+				break
+			}
+		}
+	}
+	c.Extra["values_held_across_close_at_round_end"] = intOf(c.Extra["values_held_across_close_at_round_end"]) + heldCount
 	for g := range obs {
 		for _, o := range obs[g] {
 			if o.viol != nil {
@@ -202,7 +300,9 @@ func sharedRound(c *fw.Ctx, G, iters, procs int) {
 
 func runRace(c *fw.Ctx, bin string, args ...string) {
 	cmd := exec.Command(bin, args...)
-	cmd.Env = append(os.Environ(), "GORACE=halt_on_error=1 exitcode=66")
+	// atexit_sleep_ms=0: racecheck waits for all its goroutines itself, the detector's one-second grace period
+	// before exit would only be paid once per process (and there are many short "cold start" processes)
+	cmd.Env = append(os.Environ(), "GORACE=halt_on_error=1 exitcode=66 atexit_sleep_ms=0")
 	out, err := cmd.CombinedOutput()
 	desc := "racecheck " + strings.Join(args, " ")
 	c.Journal("C15 " + desc)
@@ -246,12 +346,35 @@ func runC15(c *fw.Ctx) int {
 			c.Notes = append(c.Notes, "race-enabled build not available: "+trunc(string(out), 200))
 		} else {
 			c.Extra["race_build_s"] = time.Since(t0).Seconds()
-			n := "1500"
+			// steady state: about the same number of decode/read/close iterations in every configuration
+			total := 6000
 			if c.Tier == "thorough" {
-				n = "30000"
+				total = 180000
 			}
-			for _, a := range [][]string{{"-g", "8", "-procs", "16"}, {"-g", "64", "-procs", "2", "-fast"}, {"-g", "4", "-procs", "1", "-maxbuf", "1"}, {"-g", "16", "-procs", "16", "-fast", "-maxbuf", "0"}} {
-				runRace(c, bin, append(a, "-n", n, "-seed", fmt.Sprint(c.Seed))...)
+			for _, a := range []struct {
+				g    int
+				args []string
+			}{{8, []string{"-procs", "16"}}, {64, []string{"-procs", "2", "-fast"}}, {4, []string{"-procs", "1", "-maxbuf", "1"}}, {16, []string{"-procs", "16", "-fast", "-maxbuf", "0"}}, {16, []string{"-procs", "4", "-maxbuf", "0"}}} {
+				runRace(c, bin, append([]string{"-g", fmt.Sprint(a.g), "-n", fmt.Sprint(total / a.g), "-seed", fmt.Sprint(c.Seed)}, a.args...)...)
+			}
+			// cold starts: state that is initialised lazily on first use (package-level caches, once-only set-up) is
+			// only written during the first moments of a process, so many short processes are started in which all
+			// goroutines begin — released by one barrier — with the full sweep over accessors, wire types and error paths
+			colds := 12
+			if c.Tier == "thorough" {
+				colds = 120
+			}
+			for k := 0; k < colds; k++ {
+				g := []int{2, 3, 4, 8, 16, 64}[k%6]
+				procs := []int{16, 2, 4, 1}[(k/2)%4]
+				a := []string{"-cold", "-g", fmt.Sprint(g), "-n", "3", "-procs", fmt.Sprint(procs), "-seed", fmt.Sprint(c.Seed*1000 + uint64(k))}
+				if k%3 == 1 {
+					a = append(a, "-fast")
+				}
+				if k%4 == 3 {
+					a = append(a, "-maxbuf", "1")
+				}
+				runRace(c, bin, a...)
 			}
 		}
 	}
@@ -259,7 +382,7 @@ func runC15(c *fw.Ctx) int {
 		c.LeanChecker("C15")
 	}
 	return c.Finish(
-		"shared: G in {2,3,4,8,16,64} goroutines x GOMAXPROCS in {1,2,16} sharing one Decoder (random definition, safe/fast, optional max buffer); each goroutine decodes its own distinct inputs, issues 4 random (path, accessor) requests with an injected yield, closes; every answer is compared with the Lean model asked with a *new* object (C14: recycling is invisible) and with a reference parse of that goroutine's own input; race-detector: a fixed-schema workload (repeated varints, string, repeated nested messages read through NestedResults/NestedResult, packed fixed32, Range) built with -race, 4 configurations; non-trivial = non-empty input",
+		"shared: G in {2,3,4,8,16,64} goroutines x GOMAXPROCS in {1,2,16} sharing one Decoder (random definition, safe/fast, optional max buffer); each goroutine decodes its own distinct inputs, issues 4 random (path, accessor) requests with an injected yield, closes; every answer is compared with the Lean model asked with a *new* object (C14: recycling is invisible) and with a reference parse of that goroutine's own input; in safe mode every value handed out (byte slices, strings, typed slices; root results, NestedResult, NestedResults) is KEPT by the goroutine and looked at again after every later iteration, when the goroutine has finished and when all have finished (a result is recycled by whoever decodes next); every fourth result is kept OPEN while the goroutine decodes and reads its next message (two results of the shared Decoder alive in one goroutine), read again and only then closed; race-detector: a fixed-schema workload built with -race (root and nested results; varint / packed varint / fixed32 / packed fixed32 / fixed64 / string / bytes fields, a declared-but-absent tag, an undeclared tag, a nested field whose payload is sometimes damaged, malformed inputs; fixed reads of every kind of value incl. wrong-type requests, all 26 accessors on one random root tag and on one nested tag per iteration, paths, NestedResult(s), Range; safe mode: values kept across Close and re-checked for three more iterations, then overwritten by their owner, input overwritten after Decode; every fifth result kept open across the next iteration), 5 steady-state configurations + 12 short cold-start processes in which all goroutines are released by one barrier and begin with the sweep of all 26 accessors over every tag (every wire type, absent, undeclared; root and nested), so that error paths are taken concurrently from the first operations of a process on; non-trivial = non-empty input",
 		append(trustedCommon, "sync.Pool: Put happens-before the Get that returns the same object; an object is handed to one getter at a time", "the Go race detector (supporting evidence only)"),
 		[]string{"PARTIAL: data-race freedom in the sense of the Go memory model cannot be exhibited by the Lean model; the model proves the ownership discipline (exclusive ownership between Get and Put under every interleaving, conflicting accesses ordered by Put/Get, shared tables written only by constructors — the latter bridged to a regenerated table of all field writes in lazyproto)"})
 }
